@@ -157,7 +157,7 @@ async def check_state(st, table, idx, sd, acc):
 
 
 def _worker(args):
-    dump, table, shard, nshards, sd = args
+    dump, table, shard, nshards, sd, sample_from, stride = args
     import ahb
     ahb.configure()
     acc = Acc()
@@ -166,6 +166,8 @@ def _worker(args):
         idx = -1
         for st in dump_states(dump, shard, nshards):
             idx += 1
+            if stride > 1 and len(st.get("ts", ())) >= sample_from and (idx + sd) % stride:
+                continue            # thorough tier: TLC checks the lemma on all of them; the replay takes a seeded 1/stride sample of the longest ones
             try:
                 await check_state(st, table, idx * nshards + shard, sd, acc)
             except Exception as e:
@@ -264,11 +266,12 @@ def run():
         dumps.append((str(dump), table))
     # one pool for all tables: every worker process (one long-lived resolver) sees several different package tables in turn
     with mp.get_context("fork").Pool(16) as pool:
-        merge(res, pool.map(_worker, [(d, table, k, 16, seed()) for k in range(16) for d, table in dumps], chunksize=1))
+        merge(res, pool.map(_worker, [(d, table, k, 16, seed(), n, (5 if thorough else 1)) for k in range(16) for d, table in dumps], chunksize=1))
     long_expressions(res, work, 600 if thorough else 80)
     res.coverage["traces_validated_against_impl"] = res.coverage.get("resolutions", 0) + res.coverage.get("long_expressions", 0)
     res.coverage["evaluations"] = res.coverage.get("resolutions", 0)
     res.coverage["exhaustive"] = True
+    res.coverage["replayed"] = f"every state up to {n - 1 if thorough else n} tokens" + (f", a seeded 1/5 sample of the states with {n} tokens" if thorough else "")
     res.coverage["rule"] = (f"every well-formed expression <= {n} tokens over a key, two packages and time conditions, for 4 package tables (package inside a package, "
                             "time condition inside a package, juxtaposition and brackets inside a package, an unknown package): the tree of the real resolver "
                             "(plain or wrapped in an AHB expression; packages with/without repeatability) in n-ary normal form must equal the spec's substituted "
